@@ -20,9 +20,11 @@
   3. **A bound on what the runs do where the model declines** (`.nondet`): no run ever panics
      (`evaluateO_noPanic`, unconditional); index / slice of an enumerated array return members of that array
      (`index_member`, `slice_member`, `sliceStep_member`; `values_index0` for `values(@)[0]`).
-  4. **`max` / `min`** at the head of an expression (`max_oracle`, `min_oracle`): every run returns a value EQUAL IN
-     VALUE (`ValEq`: the same string / a decimal that compares equal) to the model's, and an error of the model is
-     the error of every run. (`sum`/`avg`: not done; see the note at the end.)
+  4. **`sum` / `avg`** join the covered class (`FullOK`, `oracle_full`, `search_oracle_full`): under the model's side
+     condition `sumOrderFree` every partial sum in every order is exact, and an exact `Dec.add` returns the canonical
+     representative of the exact sum, so every order yields the same decimal. **`max` / `min`** at the head of an
+     expression (`max_oracle`, `min_oracle`): every run returns a value EQUAL IN VALUE (`ValEq`: the same string /
+     a decimal that compares equal) to the model's, and an error of the model is the error of every run.
 -/
 import Jmes.Properties.C15
 import Jmes.Properties.C15B
@@ -32,6 +34,7 @@ import Jmes.Proofs.C15CTotal
 import Jmes.Proofs.C15CMemberLemmas
 import Jmes.Proofs.C15CMaxLemmas
 import Jmes.Proofs.C15CRunGood
+import Jmes.Proofs.C15CFull
 set_option linter.unusedVariables false
 namespace Jmes.C15C
 open Jmes Invar Jmes.C15B Jmes.Grammar
@@ -189,6 +192,95 @@ example : evaluateO reverseOracle pTwoFaults docXT = .err [Cat.undefinedVariable
 example (π : Oracle) : ∃ c ∈ [Cat.undefinedVariable, Cat.invalidType], evaluateO π pTwoFaults docXT = .err [c] :=
   evaluate_oracle_enum_err (d := docXT) (n := pTwoFaults) (by decide) (by decide) rfl π
 
+/-! ## 2b. the full class: `sum` and `avg` too -/
+
+/-- the full class: literals without map-ordered arrays, distinct member keys (both guaranteed by the parser), and no
+    call of `max` or `min` (they are treated at the head of an expression, section 4). EVERY other construct is
+    covered, `sum` and `avg` included. -/
+def FullOK (n : INode) : Bool := n.all nodeOkF
+
+/-- **Oracle theorem for the full class, both halves.** On inputs without map-ordered arrays: a value of the model is
+    the value of every run up to the order of the enumerated arrays, and an error set of the model contains the one
+    category every run reports. For `sum` / `avg` over a map-ordered array this validates the model's side condition
+    `sumOrderFree`: when it holds, every partial sum in every order is exact, `Dec.add` returns the canonical
+    representative of the exact sum (`add_canon`), and so every order yields the same decimal (`foldl_add_perm`). -/
+theorem oracle_full {root cur : Val} {env : Env} {n : INode}
+    (hroot : root.NoEnum = true) (hcur : cur.NoEnum = true) (henv : Env.NoEnum env = true) (hn : FullOK n = true) :
+    (∀ r, ieval root n cur env = .ok r → ∀ π : Oracle, ∃ r', ievalO π root n cur env = .ok r' ∧ PermEnum r r') ∧
+    (∀ cs, ieval root n cur env = .err cs → ∀ π : Oracle, ∃ c ∈ cs, ievalO π root n cur env = .err [c]) :=
+  ⟨fun r h π => ieval_simF (conc_refl root hroot) n cur cur env env hn (conc_refl cur hcur) (concF_refl env henv) π r h,
+   fun cs h π => ieval_errF (conc_refl root hroot) n cur cur env env hn (conc_refl cur hcur) (concF_refl env henv) π cs h⟩
+
+theorem evaluate_full_ok {d : Val} {n : INode} (hd : d.NoEnum = true) (hn : FullOK n = true) {r : Val}
+    (h : evaluate n d = .ok r) : ∀ π : Oracle, ∃ r', evaluateO π n d = .ok r' ∧ PermEnum r r' :=
+  (oracle_full hd hd rfl hn).1 r h
+
+theorem evaluate_full_err {d : Val} {n : INode} (hd : d.NoEnum = true) (hn : FullOK n = true) {cs : List Cat}
+    (h : evaluate n d = .err cs) : ∀ π : Oracle, ∃ c ∈ cs, evaluateO π n d = .err [c] :=
+  (oracle_full hd hd rfl hn).2 cs h
+
+theorem all_mono' {p q : INode → Bool} (h : ∀ m, p m = true → q m = true) (n : INode) (hn : n.all p = true) :
+    n.all q = true := by
+  have e : p = fun m => p m && q m := by
+    funext m
+    cases hp : p m
+    · rfl
+    · rw [h m hp]; rfl
+  rw [e, INode.all_and, Bool.and_eq_true] at hn
+  exact hn.2
+
+/-- the class of `C15B` is contained in the full class -/
+theorem fullOK_of_enumOK {n : INode} (h : EnumOK n = true) : FullOK n = true := by
+  have e1 : nodeOkE = fun m => (fun m' => INode.litOk (Val.Good true) m' && INode.keysNodup m') m && INode.coveredE m := rfl
+  have e2 : nodeOkF = fun m => (fun m' => INode.litOk (Val.Good true) m' && INode.keysNodup m') m && coveredFN m := rfl
+  rw [EnumOK, e1, INode.all_and, Bool.and_eq_true] at h
+  rw [FullOK, e2, INode.all_and, h.1, Bool.true_and]
+  exact all_mono' (fun m hm => by
+    cases m <;> first | rfl | (rename_i f _; cases f <;> first | rfl | exact hm)) n h.2
+
+/-- for a compiled expression only "no `max`, no `min`" is left -/
+theorem fullOK_of_compile {e : Bytes} {n : INode} (h : compile e = .ok n) (hc : n.all coveredFN = true) :
+    FullOK n = true := by
+  have hk := compile_keysNodup h
+  have hl : n.all (INode.litOk (Val.Good true)) = true := compile_litsNoEnum h
+  have : nodeOkF = fun m => (fun m' => INode.litOk (Val.Good true) m' && INode.keysNodup m') m && coveredFN m := rfl
+  rw [FullOK, this, INode.all_and, INode.all_and, hl, hk, hc]
+  rfl
+
+/-- **C15 for `Search`, both halves, full class**: for every expression whose compiled form contains no `max` / `min`
+    call, on a JSON document: a value of the model is the value of every run up to the order of the enumerated arrays,
+    and an error set of the model contains the one category every run reports. -/
+theorem search_oracle_full {expr : Bytes} {d : Val} (hd : d.NoEnum = true)
+    (hn : ∀ n, compile expr = .ok n → n.all coveredFN = true) :
+    (∀ r, search expr d = .ok r → ∀ π : Oracle, ∃ r', searchO π expr d = .ok r' ∧ PermEnum r r') ∧
+    (∀ cs, search expr d = .err cs → ∀ π : Oracle, ∃ c ∈ cs, searchO π expr d = .err [c]) := by
+  unfold search searchO
+  cases hp : Parser.parse expr with
+  | ok n =>
+    have hf := fullOK_of_compile hp (hn n hp)
+    exact ⟨fun r h => evaluate_full_ok hd hf h, fun cs h => evaluate_full_err hd hf h⟩
+  | error e =>
+    cases e <;> refine ⟨by simp, ?_⟩ <;> intro cs h π <;> cases h <;> exact ⟨_, by simp, rfl⟩
+
+/-- `sum(values(@))`, `avg(values(@))` on `{"a": 1, "b": 2}` are `3` and `1.5` in every run -/
+def pSumValues : INode := .call .sum [.call .values [.current]]
+def pAvgValues : INode := .call .avg [.call .values [.current]]
+example : FullOK pSumValues = true := by decide
+example : EnumOK pSumValues = false := by decide
+example (π : Oracle) : ∃ r', evaluateO π pSumValues ab = .ok r' ∧ PermEnum (.num (.dec (.fin false 3 0))) r' :=
+  evaluate_full_ok (d := ab) (n := pSumValues) (by decide) (by decide) rfl π
+example (π : Oracle) : evaluateO π pSumValues ab = .ok (.num (.dec (.fin false 3 0))) := by
+  obtain ⟨r', h1, h2⟩ := evaluate_full_ok (d := ab) (n := pSumValues) (by decide) (by decide)
+    (r := .num (.dec (.fin false 3 0))) rfl π
+  rw [h1, permEnum_eq h2 (by decide)]
+example (π : Oracle) : evaluateO π pAvgValues ab = .ok (.num (.dec (.fin false 15 (-1)))) := by
+  obtain ⟨r', h1, h2⟩ := evaluate_full_ok (d := ab) (n := pAvgValues) (by decide) (by decide)
+    (r := .num (.dec (.fin false 15 (-1)))) rfl π
+  rw [h1, permEnum_eq h2 (by decide)]
+/-- `sum(values(@))` on `{"a": "x", "b": true}` fails with invalid-type in every run -/
+example (π : Oracle) : ∃ c ∈ [Cat.invalidType], evaluateO π pSumValues docXT = .err [c] :=
+  evaluate_full_err (d := docXT) (n := pSumValues) (by decide) (by decide) rfl π
+
 /-! ## 3. where the model declines: what the runs can do -/
 
 /-- **Run totality.** No run panics — for EVERY expression, document and choice of iteration orders, in particular
@@ -265,12 +357,12 @@ example (π : Oracle) : evaluateO π (.call .sort [.current]) (.arr .plain [Jmes
     map-ordered, in which case the model answers `.nondet` for `c[i]` as soon as `xs` has two elements and `i` is in
     range), then every run of `c[i]` returns `null` or (a concretisation of) a member of `xs`; a member when `i` is in
     range. -/
-theorem index_member {c : INode} {d : Val} (hd : d.NoEnum = true) (hc : EnumOK c = true) {t : ATag} {xs : List Val}
+theorem index_member {c : INode} {d : Val} (hd : d.NoEnum = true) (hc : FullOK c = true) {t : ATag} {xs : List Val}
     (h : evaluate c d = .ok (.arr t xs)) (i : Int) :
     ∀ π : Oracle, ∃ r', evaluateO π (.index c i) d = .ok r' ∧ (r' = .null ∨ ∃ x ∈ xs, PermEnum x r') ∧
       ((let j := if i < 0 then i + (xs.length : Int) else i; 0 ≤ j ∧ j < xs.length) → ∃ x ∈ xs, PermEnum x r') := by
   intro π
-  obtain ⟨a', ha', hconc⟩ := evaluate_oracle_enum hd hc h (π.sub 0)
+  obtain ⟨a', ha', hconc⟩ := evaluate_full_ok hd hc h (π.sub 0)
   obtain ⟨t', xs', rfl, hne, hp, _, _⟩ := conc_arr hconc
   obtain ⟨r, hr, hmem, hin⟩ := index_plain (xs := xs') hne i
   have e : evaluateO π (.index c i) d = index (.arr t' xs') i := by
@@ -288,12 +380,12 @@ theorem index_member {c : INode} {d : Val} (hd : d.NoEnum = true) (hc : EnumOK c
 
 /-- **… for a slice `c[a:b]`**: every run returns an array whose elements are (concretisations of) members of `xs`,
     and no longer than `xs`. -/
-theorem slice_member {c : INode} {d : Val} (hd : d.NoEnum = true) (hc : EnumOK c = true) {t : ATag} {xs : List Val}
+theorem slice_member {c : INode} {d : Val} (hd : d.NoEnum = true) (hc : FullOK c = true) {t : ATag} {xs : List Val}
     (h : evaluate c d = .ok (.arr t xs)) (a b : Int) :
     ∀ π : Oracle, ∃ ys, evaluateO π (.slice c a b) d = .ok (.arr .plain ys) ∧ ys.length ≤ xs.length ∧
       ∀ y ∈ ys, ∃ x ∈ xs, PermEnum x y := by
   intro π
-  obtain ⟨a', ha', hconc⟩ := evaluate_oracle_enum hd hc h (π.sub 0)
+  obtain ⟨a', ha', hconc⟩ := evaluate_full_ok hd hc h (π.sub 0)
   obtain ⟨t', xs', rfl, hne, hp, _, _⟩ := conc_arr hconc
   obtain ⟨ys, hys, hsub⟩ := slice_plain (xs := xs') hne a b
   have e : evaluateO π (.slice c a b) d = slice (.arr t' xs') a b := by
@@ -305,12 +397,12 @@ theorem slice_member {c : INode} {d : Val} (hd : d.NoEnum = true) (hc : EnumOK c
 
 /-- **… for a slice with a step `c[a:b:s]`**: every element of every run's result is `null` or (a concretisation of)
     a member of `xs`. -/
-theorem sliceStep_member {c : INode} {d : Val} (hd : d.NoEnum = true) (hc : EnumOK c = true) {t : ATag}
+theorem sliceStep_member {c : INode} {d : Val} (hd : d.NoEnum = true) (hc : FullOK c = true) {t : ATag}
     {xs : List Val} (h : evaluate c d = .ok (.arr t xs)) (a b s : Int) :
     ∀ π : Oracle, ∃ ys, evaluateO π (.sliceStep c a b s) d = .ok (.arr .plain ys) ∧
       ∀ y ∈ ys, y = .null ∨ ∃ x ∈ xs, PermEnum x y := by
   intro π
-  obtain ⟨a', ha', hconc⟩ := evaluate_oracle_enum hd hc h (π.sub 0)
+  obtain ⟨a', ha', hconc⟩ := evaluate_full_ok hd hc h (π.sub 0)
   obtain ⟨t', xs', rfl, hne, hp, _, _⟩ := conc_arr hconc
   obtain ⟨ys, hys, hmem⟩ := sliceStep_plain (xs := xs') hne a b s
   have e : evaluateO π (.sliceStep c a b s) d = sliceStep (.arr t' xs') a b s := by
@@ -369,38 +461,38 @@ theorem evaluateO_call1 (π : Oracle) (f : Fn) (c : INode) (d : Val) :
     that compares equal to the model's (on a map-ordered array the first of several equal-valued greatest numbers may
     have another representation, `C15B.max_not_covered`); and if the model's `max(c)` is an error set, every run
     reports one category of it. -/
-theorem max_oracle {c : INode} {d : Val} (hd : d.NoEnum = true) (hc : EnumOK c = true) :
+theorem max_oracle {c : INode} {d : Val} (hd : d.NoEnum = true) (hc : FullOK c = true) :
     (∀ r, evaluate (.call .max [c]) d = .ok r → ∀ π : Oracle, ∃ r', evaluateO π (.call .max [c]) d = .ok r' ∧ ValEq r r') ∧
     (∀ cs, evaluate (.call .max [c]) d = .err cs → ∀ π : Oracle, ∃ k ∈ cs, evaluateO π (.call .max [c]) d = .err [k]) := by
   constructor
   · intro r h π
     rw [evaluate_call1] at h
     obtain ⟨v, hv, hr⟩ := bind_eq_ok' h
-    obtain ⟨v', hv', cv⟩ := evaluate_oracle_enum hd hc hv ((π.sub 0).sub 0)
+    obtain ⟨v', hv', cv⟩ := evaluate_full_ok hd hc hv ((π.sub 0).sub 0)
     obtain ⟨r', hr', he⟩ := arrayMax_valEq cv (r := r) hr
     exact ⟨r', by rw [evaluateO_call1, hv']; exact hr', he⟩
   · intro cs h π
     rw [evaluate_call1] at h
     rw [evaluateO_call1]
-    exact ErrH.bind (C := Conc) (fun v hv => evaluate_oracle_enum hd hc hv _)
-      (fun cs hcs => evaluate_oracle_enum_err hd hc hcs _) (fun v v' cv => arrayMax_errH cv) cs h
+    exact ErrH.bind (C := Conc) (fun v hv => evaluate_full_ok hd hc hv _)
+      (fun cs hcs => evaluate_full_err hd hc hcs _) (fun v v' cv => arrayMax_errH cv) cs h
 
 /-- **`min(c)`**: likewise. -/
-theorem min_oracle {c : INode} {d : Val} (hd : d.NoEnum = true) (hc : EnumOK c = true) :
+theorem min_oracle {c : INode} {d : Val} (hd : d.NoEnum = true) (hc : FullOK c = true) :
     (∀ r, evaluate (.call .min [c]) d = .ok r → ∀ π : Oracle, ∃ r', evaluateO π (.call .min [c]) d = .ok r' ∧ ValEq r r') ∧
     (∀ cs, evaluate (.call .min [c]) d = .err cs → ∀ π : Oracle, ∃ k ∈ cs, evaluateO π (.call .min [c]) d = .err [k]) := by
   constructor
   · intro r h π
     rw [evaluate_call1] at h
     obtain ⟨v, hv, hr⟩ := bind_eq_ok' h
-    obtain ⟨v', hv', cv⟩ := evaluate_oracle_enum hd hc hv ((π.sub 0).sub 0)
+    obtain ⟨v', hv', cv⟩ := evaluate_full_ok hd hc hv ((π.sub 0).sub 0)
     obtain ⟨r', hr', he⟩ := arrayMin_valEq cv (r := r) hr
     exact ⟨r', by rw [evaluateO_call1, hv']; exact hr', he⟩
   · intro cs h π
     rw [evaluate_call1] at h
     rw [evaluateO_call1]
-    exact ErrH.bind (C := Conc) (fun v hv => evaluate_oracle_enum hd hc hv _)
-      (fun cs hcs => evaluate_oracle_enum_err hd hc hcs _) (fun v v' cv => arrayMin_errH cv) cs h
+    exact ErrH.bind (C := Conc) (fun v hv => evaluate_full_ok hd hc hv _)
+      (fun cs hcs => evaluate_full_err hd hc hcs _) (fun v v' cv => arrayMin_errH cv) cs h
 
 /-- value equality is equality on everything but decimals -/
 theorem valEq_str {s : Bytes} {r' : Val} (h : ValEq (.str s) r') : r' = .str s := by
@@ -420,12 +512,5 @@ example (π : Oracle) : evaluateO π (.call .max [.call .keys [.current]]) ab = 
 /-- `min(values(@))` on `{"a": "x", "b": true}` fails with invalid-type in every run -/
 example (π : Oracle) : ∃ k ∈ [Cat.invalidType], evaluateO π (.call .min [.call .values [.current]]) docXT = .err [k] :=
   (min_oracle (c := .call .values [.current]) (d := docXT) (by decide) (by decide)).2 _ rfl π
-
-/-! ### not done: `sum` / `avg`
-  `numSum` / `numAvg` answer on a map-ordered array only under `sumOrderFree` (every partial sum in every order is
-  exact). Extending the oracle theorem to them needs: `Dec.add` of two finite decimals whose exact sum has at most 34
-  digits and an exponent in range is `normalize` of the exact sum (`Dec.reduce_exact_34` gives the reduction step),
-  hence every order yields the canonical representative of the same rational value. That arithmetic lemma is not
-  proved here. -/
 
 end Jmes.C15C
